@@ -7,7 +7,8 @@ carry-over buffer), and the chunk-independence theorem itself
 (`C09_chunk_independent`, proof in Lemmas/Stream.lean + Lemmas/Utf8.lean).
 -/
 import PkgsrcVerif.Lemmas.Stream
-import PkgsrcVerif.Props.C08
+import PkgsrcVerif.Lemmas.StreamPrint
+import PkgsrcVerif.Props.C07
 open M L
 
 theorem parseRecords_extends (acc : List Summary) (rs : List Bytes) :
@@ -117,6 +118,49 @@ theorem C09_chunk_independent (s : Bytes) (cs : List Bytes) (hcs : cs.flatten = 
   rw [hA] at k2 k3; rw [hB] at o2 o3
   simp only at k2 k3 o2 o3
   rw [k2, k3, o2, o3]
+
+/-- the final '\n' of an entry's text is optional for the entry parser (std `lines()`): a record
+    of a stream — which carries no final '\n', the "\n\n" after it being the separator — parses
+    exactly like the '\n'-terminated text Display prints for it -/
+theorem C09_record_parses_like_entry_text (r : Bytes) (hne : r ≠ []) (h10 : r.getLast? ≠ some 10)
+    (h13 : r.getLast? ≠ some 13) : Summary.parse (r ++ [10]) = Summary.parse r :=
+  parse_append_nl r hne h10 h13
+
+/-- **"… and printing the collection reproduces the stream."**  Display prints every entry in
+    the fixed pkg_summary order, so this clause can only hold for streams whose entries are
+    written that way; for every well-formed stream whose records are canonical entry texts
+    (`S.canonical (r ++ "\n")`: known variables in the fixed order, no '\r', canonical integers)
+    and EVERY chunking, the printed collection is the stream, byte for byte. -/
+theorem C09_print_reproduces_stream (s : Bytes) (cs : List Bytes) (hcs : cs.flatten = s)
+    (hrest : (S.records s).2 = []) (hgood : ∀ r ∈ (S.records s).1, S.goodRecord r = true)
+    (hcan : ∀ r ∈ (S.records s).1, S.canonical (r ++ [10]) = true) :
+    (runWrites Stream.init cs).1.print = s := by
+  obtain ⟨_, _, hent, _⟩ := C09_chunk_independent s cs hcs hrest hgood
+  have hT : s = T (S.records s).1 := by
+    have := splitSep2_join s
+    simp only [S.records] at hrest ⊢
+    rw [hrest, List.append_nil] at this
+    exact this
+  rw [Stream.print, hent]
+  conv => rhs; rw [hT]
+  unfold T
+  rw [List.flatMap_map]
+  apply flatMap_congr_mem
+  intro r hr
+  have hg := goodRecord_sound r (hgood r hr)
+  obtain ⟨s0, hs0⟩ := hg.parses
+  have hc := hcan r hr
+  have h13 : r.getLast? ≠ some 13 := by
+    intro h
+    have hmem : (13 : UInt8) ∈ r ++ [10] := List.mem_append_left _ (List.mem_of_getLast? h)
+    have : (r ++ [10]).contains 13 = true := by simpa using hmem
+    simp only [S.canonical, Bool.and_eq_true, Bool.not_eq_true'] at hc
+    rw [this] at hc
+    exact absurd hc.1.2 (by simp)
+  have hp : Summary.parse (r ++ [10]) = .ok s0 := by
+    rw [parse_append_nl r hg.clean.ne hg.clean.last h13]; exact hs0
+  have := C07_print_parse_canonical (r ++ [10]) hc s0 hp
+  simp only [entryOf, hs0, this, List.append_assoc, List.cons_append, List.nil_append]
 
 /-- **The malformed-entry clause.**  Let the stream be well-formed entries `goods`, then an entry
     `bad` that the entry parser rejects (valid UTF-8, one block of lines), each followed by a
